@@ -4,7 +4,7 @@ from vf import Case
 
 ID = "C18"
 DRIVER = "drv_buffers"
-HARNESS = ("h_buffers", ["src/byte-buffer.c"])
+HARNESS = "h_buffers"
 RULE = ("explicit-state exploration over the abstract state (size, used, offset): for every reachable "
         "state of every size in scope, a shortest path to it followed by every operation with every operand "
         "length 0..size+1; every set-up argument combination on a small grid incl. null memory; seeded random "
